@@ -163,8 +163,17 @@ def showReg (reg : BlockReg) (us : List (UKind × BScope)) : List Str :=
     its specifics with the parent type's generic binding (code as found) -/
 def sharedOf (s : Str) : Bool := (s.drop 3).head? == some '1'
 
-/-- type records: ( "T" ent (slot | "-") n (name ent)* m (slot name)* )* ; the parent of a type is
-    what the model put into its `extends` slot -/
+def takeNats : Nat → List Str → List Nat → Option (List Nat × List Str)
+  | 0, r, acc => some (acc.reverse, r)
+  | n + 1, x :: r, acc => takeNats n r (natOf x :: acc)
+  | _ + 1, [], _ => none
+
+/-- seventh character of the variant: 1 = an extension does not inherit the PRIVATE bindings of its
+    parent type (code as found) -/
+def dropOf (s : Str) : Bool := (s.drop 6).head? == some '1'
+
+/-- type records: ( "T" ent (slot | "-") n (name ent)* m (slot name)* k (private binding ent)* )* ; the
+    parent of a type is what the model put into its `extends` slot -/
 def parseTypes (res : Res) : Nat → List Str → List TypeRec → Option (List TypeRec)
   | 0, _, _ => none
   | _ + 1, [], acc => some acc.reverse
@@ -173,12 +182,15 @@ def parseTypes (res : Res) : Nat → List Str → List TypeRec → Option (List 
       match takePairs (natOf n) r [] with
       | some (own, m :: r2) =>
         match takeCells (natOf m) r2 [] with
-        | some (gens, r3) =>
-          let parent := if x == "-".toList then none else resGet res (natOf x)
-          -- `own` in declaration order; a table has the most recent write at its head
-          parseTypes res fuel r3
-            (⟨natOf e, parent, (own.map fun p => (lower p.1, natOf p.2)).reverse, gens⟩ :: acc)
-        | none => none
+        | some (gens, k :: r3) =>
+          match takeNats (natOf k) r3 [] with
+          | some (privs, r4) =>
+            let parent := if x == "-".toList then none else resGet res (natOf x)
+            -- `own` in declaration order; a table has the most recent write at its head
+            parseTypes res fuel r4
+              (⟨natOf e, parent, (own.map fun p => (lower p.1, natOf p.2)).reverse, gens, privs⟩ :: acc)
+          | none => none
+        | _ => none
       | _ => none
     else none
   | _ + 1, _, _ => none
@@ -191,11 +203,6 @@ def splitTypes (toks : List Str) : List Str × List Str × List Str :=
   let p := toks.span (fun t => !(t == "|".toList))
   let q := (p.2.drop 1).span (fun t => !(t == "|".toList))
   (p.1, q.1, q.2.drop 1)
-
-def takeNats : Nat → List Str → List Nat → Option (List Nat × List Str)
-  | 0, r, acc => some (acc.reverse, r)
-  | n + 1, x :: r, acc => takeNats n r (natOf x :: acc)
-  | _ + 1, [], _ => none
 
 /-- "I" n ent* "O" m ent* : the interface-body entities and the project's list order of the submodules -/
 def parseSubSection : List Str → List Ent × List Ent
@@ -231,7 +238,7 @@ namespace C07Wire
 def runVariant (v : Str) (us : List (UKind × BScope)) (tt : List Str) (pairable order : List Ent) : Option (List Str) :=
   let res := corrProjectS (variantOf v) (svOf v) pairable order PState.empty (flattenUnits (regOf v) us)
   match parseTypes res (tt.length + 1) tt [] with
-  | some rs => some (showRes res ++ showCells (genericRes (sharedOf v) rs) ++ showReg (regOf v) us)
+  | some rs => some (showRes res ++ showCells (genericResD (dropOf v) (sharedOf v) rs) ++ showReg (regOf v) us)
   | none => none
 
 def runSpec (us : List (UKind × BScope)) (tt : List Str) (pairable : List Ent) : Option (List Str) :=
@@ -349,7 +356,7 @@ def dispatchC07 : List Str → Option (List Str)
           let res := corrProjectS (variantOf v) (svOf v) pairable order PState.empty (flattenUnits (regOf v) us)
           match parseTypes res (tt.length + 1) tt [] with
           | some rs =>
-            some ("ok".toList :: (showRes res ++ showCells (genericRes (sharedOf v) rs) ++ showReg (regOf v) us))
+            some ("ok".toList :: (showRes res ++ showCells (genericResD (dropOf v) (sharedOf v) rs) ++ showReg (regOf v) us))
           | none => some ["bad-types".toList]
         | none => some ["bad-project".toList]
       | _ => some ["bad-request".toList]
